@@ -29,6 +29,15 @@ TEXT = {
  "C19": ("interval", "Interval-level approximate equality must equal the kind-aware conjunction of the element-level results for every kind combination and "
          "independently displaced bounds (TLC re-evaluates |x-y|<=eps exactly for the absolute mode); Display string checked against the canonical forms for all chain intervals x 9 types.",
          "TLC generator + trace validation (exact dyadic arithmetic in TLA+)"),
+ "C09": ("accum", "TLA+ state machines of the seven incremental statistics over registers (abstract state = the bag a register must represent). TLC checks that "
+         "the sufficient statistics the crate keeps refine the bag machine (any history = batch) on all programs of the bounded model, enumerates by BFS every "
+         "API program up to a length bound (plus simulated long programs), replays them on the crate and validates every step: outcome, multiset bookkeeping, "
+         "counts, purity of queries and bit-equality of all observations with the one-shot batch computation.",
+         "TLC model checking (refinement) + exhaustive program enumeration + trace validation carrying abstract state"),
+ "C20": ("accum", "The advertised feature sets are a constant of the specification and each must build (cargo, offline, /repo working tree); serde round trips are a "
+         "stuttering action of the accumulation machines: every program with round trips at every position is replayed on a serde-enabled harness and TLC "
+         "requires restored == original and bit-identical observations with a twin history without round trips; Confidence and Interval values round-trip.",
+         "TLC program enumeration + trace validation (twin histories); plain enumeration of cargo feature builds"),
 }
 PENDING_REASON = "check not built yet in this round (planned, see DESIGN.md section 4); not claimed"
 
@@ -67,6 +76,9 @@ def main():
             {"name": "confidence", "path": "spec/Confidence.tla spec/MC_Confidence.tla spec/Gen_Confidence.tla spec/Trace_Confidence.tla spec/Float.tla spec/BigNum.tla java/verif",
              "serves_properties": ["C18"],
              "kind_free_text": "TLA+ value algebra of Confidence over level classes / exact dyadic levels"},
+            {"name": "accum", "path": "spec/Accum.tla spec/MC_Accum.tla spec/Gen_Accum.tla spec/Trace_Accum.tla spec/Gen_Build.tla spec/Trace_Build.tla harness/src/accum.rs",
+             "serves_properties": ["C09", "C20"],
+             "kind_free_text": "TLA+ state machines of the incremental statistics (bags), refinement check, BFS program generator, stateful trace validator"},
             {"name": "interval", "path": "spec/Interval.tla spec/IntervalSession.tla spec/MC_Interval.tla spec/Gen_Interval.tla spec/Trace_Interval.tla",
              "serves_properties": ["C07", "C13", "C14", "C15", "C19"],
              "kind_free_text": "TLA+ value algebra of intervals as closed sets; TLC model check + generator + trace validator"},
